@@ -405,6 +405,7 @@ func TestC05(t *testing.T) {
 			"(b) clusters of 1..4 hosts x 1..2 connections (some hosts without a usable connection), requests of every kind and both idempotency classes, per-attempt outcome scripts (every error kind, connection loss) executed through the proxy; the backend's attempt log and the client's reply must equal an independent model of the documented policy; "+
 			"non-trivial = script with >=2 distinct outcome kinds, a success after a retry, or a host without connection; distinct by (cluster shape, request kinds, scripts)")
 	defer finish(t, rec)
+	rec.SetJournalAll(true)
 	rec.Assume("ground-truth idempotency comes from the statement generator (cqlgen), not from package parser",
 		"requests of one case run one at a time; a script with connection loss is only given to the last request of a case so that pool reconnection cannot make host availability ambiguous",
 		"an UNPREPARED outcome is bounded to 2 in a row: a backend answering UNPREPARED forever makes the proxy re-prepare forever (DESIGN.md §4)")
